@@ -320,7 +320,7 @@ def core(ctx, optsets_needed, fields, cross=None, note='', sweep='core', build_m
 
 
 def c01(ctx):
-    ctx.proofs(['PegVerif.Props.C01'])
+    ctx.proofs(['PegVerif.Props.C01', 'PegVerif.Props.AllOptions'])
     sw, by = core(ctx, [''], ['v', 'toks'], note='Non-trivial = accepted (a prefix was consumed and its end offset compared).')
     ctx.coverage['distinct_nontrivial'] = by.get('d', {}).get('ok', 0)
 
